@@ -85,7 +85,9 @@ impl Prop for C18 {
                     1 => cfg.agent_css = Some(sheet),
                     _ => {
                         cfg.use_doc_css = true;
-                        html = format!("<style>{sheet}</style>{html}");
+                        // the style element leads the document (hoisted into <head>) or follows the body content (stays
+                        // inside <body>, as the last child: no earlier sibling's position changes)
+                        html = if r.p(50) { format!("<style>{sheet}</style>{html}") } else { format!("{html}<style>{sheet}</style>") };
                     }
                 }
                 aux = format!("S{}", sels.join("\n"));
